@@ -789,8 +789,14 @@ def judge(c, ans):
         return None
     if kind in ('b64dec-noncanon', 'unhex-trailing') and ans == 'bad':
         return None
+    what = ''
+    if kind == 'json':
+        t = c['line'].split()
+        doc, key = core.unhx(t[1]), core.unhx(t[2])
+        what = 'json_find(%r%s, key %r): end is %d; ' % (doc[:400], '...' if len(doc) > 400 else '',
+                                                        key, len(doc))
     return ('oracle:' + kind.replace('-noncanon', '').replace('-trailing', ''),
-            'expected %s got %s' % (e[:300], ans[:300]))
+            '%sexpected %s got %s' % (what, e[:300], ans[:300]))
 
 
 def _shard(a):
